@@ -70,4 +70,33 @@ example : refuse G (500 * 2 ^ 30) (10 * 2 ^ 30) 0 = some true ∧ refuse G (500 
   rw [c18_exact_default _ _ _ (by decide), c18_exact_default _ _ _ (by decide)]
   decide
 
+/-! ### "the operator's --min-space-required when given": from the command line to the guard -/
+
+/-- the regenerated facts about the flag's default and `handleFlagsAliases` -/
+theorem flag_facts_ok : okFlag G = true := by decide +kernel
+
+/-- whatever positive value the operator gives is the setting the guard is called with -/
+theorem c18_operator_setting_reaches_guard (v : Rat) (hv : 0 < v) : configured G (some v) = v :=
+  configured_given G flag_facts_ok v hv
+
+/-- … so the refusal is exactly `free < v GiB`, for every value whose threshold fits `uint64` -/
+theorem c18_operator_setting_decides (total free : Nat) (v : Rat) (hv : 0 < v)
+    (hr : specThreshold total v ≤ 18446744073709551615) :
+    refuse G total free (configured G (some v)) = some (decide ((free : Rat) < v * 1073741824)) := by
+  rw [c18_operator_setting_reaches_guard v hv, c18_exact total free v hr]
+  simp [specThreshold, hv]
+
+/-- nothing given: the scaled default decides -/
+theorem c18_nothing_given_default (total free : Nat) :
+    refuse G total free (configured G none) = some (decide ((free : Rat) < specThreshold total 0)) := by
+  rw [configured_none G flag_facts_ok]
+  exact c18_exact_default total free 0 (by decide)
+
+/-- The alias rule of the pinned tree (defect D25: the key is compared, as an integer, with 20 although the
+flag's default is 0) replaces an operator's 20 by the unset alias' 0: witness. -/
+theorem c18_alias_counterexample :
+    configured { G with msrAliasRule := "copyAlias", msrAliasGetter := "GetInt", msrAliasUnsetConst := 20,
+                        msrAliasKeyConst := 20 } (some 20) = 0 := by
+  decide +kernel
+
 end Zeno.Props.C18
